@@ -12,15 +12,17 @@ namespace SteelVerif.C07
 
 def InvF (fs : List Frame) (pc x : Nat) : Prop := 1 ≤ pc ∧ pc + x = fs.length + 1
 
-def Inv (b : Nat) (t : Thread) : Prop := b ≤ t.lost ∧ InvF t.frames t.popCount (t.lost - b)
+/-- `k`: frames below this instance that are not its own (0 for `execute`; for a nested instance — Nested.lean — the
+frames of the enclosing instances plus one) -/
+def Inv (b k : Nat) (t : Thread) : Prop := b ≤ t.lost ∧ InvF t.frames t.popCount (t.lost - b + k)
 
 /-- the order found in the source (regenerated on every run): the test precedes the decrement -/
 theorem gen_unwind_order : Gen.unwindTestFirst = true := by decide
 
 /-! ### one instruction -/
 
-theorem vmStep_next {b : Nat} {c c' : List Code} {t t' : Thread} (hi : Inv b t) (h : vmStep c t = .next c' t') :
-    Inv b t' ∧ t.globals <+: t'.globals ∧ t'.lost = t.lost := by
+theorem vmStep_next {b k : Nat} {c c' : List Code} {t t' : Thread} (hi : Inv b k t) (h : vmStep c t = .next c' t') :
+    Inv b k t' ∧ t.globals <+: t'.globals ∧ t'.lost = t.lost := by
   unfold Inv InvF at *
   unfold vmStep at h
   split at h
@@ -53,8 +55,8 @@ theorem vmStep_next {b : Nat} {c c' : List Code} {t t' : Thread} (hi : Inv b t) 
   · split at h <;> cases h
 
 /-- `vm()` returns `Ok`: the frames that are left are exactly the uncounted ones but one -/
-theorem vmStep_done {b : Nat} {c : List Code} {t t' : Thread} {v : Val} (hi : Inv b t) (h : vmStep c t = .done v t') :
-    t'.frames.length = (t.lost - b) - 1 ∧ t'.lost = t.lost ∧ t'.globals = t.globals := by
+theorem vmStep_done {b k : Nat} {c : List Code} {t t' : Thread} {v : Val} (hi : Inv b k t) (h : vmStep c t = .done v t') :
+    t'.frames.length = (t.lost - b + k) - 1 ∧ t'.lost = t.lost ∧ t'.globals = t.globals := by
   unfold Inv InvF at *
   unfold vmStep at h
   split at h
@@ -79,8 +81,8 @@ theorem vmStep_done {b : Nat} {c : List Code} {t t' : Thread} {v : Val} (hi : In
           omega
   all_goals first | cases h | (split at h <;> cases h)
 
-theorem vmStep_raise {b : Nat} {c : List Code} {t t' : Thread} {e : Val} (hi : Inv b t) (h : vmStep c t = .raise e t') :
-    Inv b t' ∧ t'.globals = t.globals ∧ t.lost ≤ t'.lost := by
+theorem vmStep_raise {b k : Nat} {c : List Code} {t t' : Thread} {e : Val} (hi : Inv b k t) (h : vmStep c t = .raise e t') :
+    Inv b k t' ∧ t'.globals = t.globals ∧ t.lost ≤ t'.lost := by
   unfold Inv InvF at *
   unfold vmStep at h
   split at h
@@ -104,7 +106,7 @@ theorem vmStep_raise {b : Nat} {c : List Code} {t t' : Thread} {e : Val} (hi : I
       refine ⟨⟨?_, ?_, ?_⟩, rfl, ?_⟩ <;> simp [mkFrame] <;> omega
     · cases h; exact ⟨hi, rfl, Nat.le_refl _⟩
 
-theorem vmStep_no_panic {b : Nat} {c : List Code} {t : Thread} (hi : Inv b t) : vmStep c t ≠ .panic := by
+theorem vmStep_no_panic {b k : Nat} {c : List Code} {t : Thread} (hi : Inv b k t) : vmStep c t ≠ .panic := by
   unfold Inv InvF at *
   intro h
   unfold vmStep at h
@@ -125,8 +127,8 @@ theorem vmStep_no_panic {b : Nat} {c : List Code} {t : Thread} (hi : Inv b t) : 
 
 /-! ### `vm()` -/
 
-theorem vmRun_ok {b n : Nat} {c : List Code} {t t' : Thread} {v : Val} (hi : Inv b t) (h : vmRun n c t = .ok v t') :
-    t'.frames.length = (t'.lost - b) - 1 ∧ t.lost ≤ t'.lost ∧ t.globals <+: t'.globals := by
+theorem vmRun_ok {b k n : Nat} {c : List Code} {t t' : Thread} {v : Val} (hi : Inv b k t) (h : vmRun n c t = .ok v t') :
+    t'.frames.length = (t'.lost - b + k) - 1 ∧ t.lost ≤ t'.lost ∧ t.globals <+: t'.globals := by
   induction n generalizing c t with
   | zero => simp [vmRun] at h
   | succ n ih =>
@@ -143,8 +145,8 @@ theorem vmRun_ok {b n : Nat} {c : List Code} {t t' : Thread} {v : Val} (hi : Inv
     · cases h
     · cases h
 
-theorem vmRun_err {b n : Nat} {c : List Code} {t t' : Thread} {e : Val} (hi : Inv b t) (h : vmRun n c t = .err e t') :
-    Inv b t' ∧ t.lost ≤ t'.lost ∧ t.globals <+: t'.globals := by
+theorem vmRun_err {b k n : Nat} {c : List Code} {t t' : Thread} {e : Val} (hi : Inv b k t) (h : vmRun n c t = .err e t') :
+    Inv b k t' ∧ t.lost ≤ t'.lost ∧ t.globals <+: t'.globals := by
   induction n generalizing c t with
   | zero => simp [vmRun] at h
   | succ n ih =>
@@ -161,7 +163,7 @@ theorem vmRun_err {b n : Nat} {c : List Code} {t t' : Thread} {e : Val} (hi : In
       exact ⟨this.1, this.2.2, by rw [this.2.1]; exact List.prefix_refl _⟩
     · cases h
 
-theorem vmRun_no_panic {b n : Nat} {c : List Code} {t : Thread} (hi : Inv b t) : vmRun n c t ≠ .panic := by
+theorem vmRun_no_panic {b k n : Nat} {c : List Code} {t : Thread} (hi : Inv b k t) : vmRun n c t ≠ .panic := by
   induction n generalizing c t with
   | zero => simp [vmRun]
   | succ n ih =>
@@ -279,7 +281,7 @@ theorem unwind_resume {e : Val} {fs : List Frame} {t t' : Thread} {c : List Code
 
 /-! ### the `'outer` loop -/
 
-theorem executeLoop_spec {b n : Nat} {c : List Code} {t t' : Thread} {o : Outcome} (hi : Inv b t)
+theorem executeLoop_spec {b n : Nat} {c : List Code} {t t' : Thread} {o : Outcome} (hi : Inv b 0 t)
     (h : executeLoop n c t = (o, t')) :
     o ≠ .panic ∧ t.globals <+: t'.globals ∧ t.lost ≤ t'.lost ∧
     ((∃ v, o = .ok v) ∨ (∃ e, o = .error e) → t'.lost ≤ b + 1 → t'.stack = [] ∧ t'.frames = []) := by
@@ -303,8 +305,8 @@ theorem executeLoop_spec {b n : Nat} {c : List Code} {t t' : Thread} {o : Outcom
       split at h
       · rename_i c2 t2 hu
         have k := (unwind_keeps (e := e) (fs := t1.frames) (t := t1)).2 _ _ hu
-        have u := unwind_resume (x := t1.lost - b) r.1.2.2 hu
-        have hi2 : Inv b t2 := ⟨by rw [k.2]; exact r.1.1, by rw [k.2]; exact u⟩
+        have u := unwind_resume (x := t1.lost - b + 0) r.1.2.2 hu
+        have hi2 : Inv b 0 t2 := ⟨by rw [k.2]; exact r.1.1, by rw [k.2]; exact u⟩
         have rr := ih hi2 h
         refine ⟨rr.1, ?_, ?_, rr.2.2.2⟩
         · exact List.IsPrefix.trans r.2.2 (by rw [← k.1]; exact rr.2.1)
@@ -313,13 +315,13 @@ theorem executeLoop_spec {b n : Nat} {c : List Code} {t t' : Thread} {o : Outcom
         cases h
         have k := (unwind_keeps (e := e) (fs := t1.frames) (t := t1)).1 _ _ hu
         refine ⟨by simp, by rw [k.1]; exact r.2.2, by rw [k.2]; exact r.2.1, fun _ hl => ?_⟩
-        exact unwind_fail (x := t1.lost - b) (by rw [k.2] at hl; omega) r.1.2.2 hu
+        exact unwind_fail (x := t1.lost - b + 0) (by rw [k.2] at hl; omega) r.1.2.2 hu
     · rename_i hp
       exact absurd hp (vmRun_no_panic hi)
     · cases h
       exact ⟨by simp, List.prefix_refl _, Nat.le_refl _, by rintro (⟨v, hv⟩ | ⟨e, he⟩) <;> cases ‹_›⟩
 
-theorem inv_of_clean_entry (t : Thread) (hc : t.clean) : Inv t.lost { t with popCount := 1 } := by
+theorem inv_of_clean_entry (t : Thread) (hc : t.clean) : Inv t.lost 0 { t with popCount := 1 } := by
   unfold Inv InvF
   simp [hc.2]
 
